@@ -678,3 +678,5 @@ Definition run_mode (mode : Z) (case : case_t) : list Z :=
 
 Definition run_flat (case : case_t) : list Z := run_mode 0 case.
 Definition spec_flat (case : case_t) : list Z := run_mode 1 case.
+(* both observations of one case in one evaluation *)
+Definition both_flat (case : case_t) : list (list Z) := [run_mode 0 case; run_mode 1 case].
